@@ -77,7 +77,7 @@ Section Main.
     - (* ENum *) unfold toks. destruct n as [ng g]. unfold plvl, signed. simpl.
       destruct ng; simpl.
       + eexists _, _. split; [reflexivity|]. split; [reflexivity|discriminate].
-      + destruct g; simpl; eexists _, _; (split; [reflexivity|]); split; try reflexivity; try discriminate; auto.
+      + destruct g; simpl; eexists _, _; (split; [reflexivity|]); split; try reflexivity; auto.
     - simpl. eauto 6.
     - destruct (sel_head_first v (toks_at (vs_at v) ++ toks_offsets v ++ ts) W) as (t & ts' & E & Pt).
       exists t, ts'. simpl. rewrite <- !app_assoc. rewrite E. unfold start_tok. rewrite Pt. auto.
@@ -213,15 +213,12 @@ Section Main.
   Proof.
     intros W Sg Hf k minp rest H7 Hl Hfo. destruct f as [|f']; [lia|].
     destruct n as [ng g]. simpl in W. unfold signed in Sg. simpl in Sg. simpl cap in Hfo.
-    unfold signed in Hfo. simpl in Hfo. rewrite Sg in Hfo.
+    unfold signed in Hfo. simpl in Hfo. rewrite Sg in Hfo. simpl in Sg.
     assert (E : forall g', g' = g -> forall lx, pexpr rx (S f') 7 (TNum lx (Some g') :: rest) = Some (ENum (mkNum false g'), rest)).
     { intros g' _ lx. simpl. unfold pbody. unfold pprefix. cbn [pprimary].
       rewrite ppost_stop by (eapply follow_no_post; eauto). apply ploop_stop. assumption. }
-    simpl sl. simpl norm. unfold pbody.
-    destruct ng.
-    - simpl toks. rewrite <- app_comm_cons. unfold pprefix.
-      destruct g; simpl toks_num_abs; simpl app; rewrite (E _ eq_refl); simpl in W; try discriminate; reflexivity.
-    - destruct g; simpl in Sg; try discriminate.
-      simpl toks. rewrite <- app_comm_cons. unfold pprefix. simpl toks_num_abs. simpl app. rewrite (E _ eq_refl). reflexivity.
+    simpl sl. simpl norm. unfold pbody. subst ng.
+    simpl toks. rewrite <- app_comm_cons. unfold pprefix.
+    destruct g; simpl toks_num_abs; simpl app; rewrite (E _ eq_refl); simpl in W; try discriminate; reflexivity.
   Qed.
 End Main.
